@@ -68,7 +68,7 @@ CVacuous(name, e) == PrintT(<<"VACUOUS", name, l, e.case, e.g>>)
 
 \* ---- the probe schedule (C03: every live peer once per pass while membership is stable, at least once
 \* in any two passes otherwise, never the node itself, never a dead peer) --------------------------------
-NoPass == [picks |-> << >>, stable |-> TRUE, elig |-> {}, full |-> FALSE, missed |-> << >>, flap |-> {}]
+NoPass == [picks |-> << >>, stable |-> TRUE, elig |-> {}, full |-> FALSE, missed |-> << >>, flap |-> {}, pickAt |-> -1]
 PassOf(n) == IF n \in DOMAIN pass THEN pass[n] ELSE NoPass
 Count(f, x) == IF x \in DOMAIN f THEN f[x] ELSE 0
 Peers(e) == {m.name : m \in e.members} \ {e.n}
@@ -76,6 +76,10 @@ Peers(e) == {m.name : m \in e.members} \ {e.n}
 ProbeJudge(e) ==
   /\ (e.ev = "ProbePick") =>
         CReport("C03_NoSelfNoDead", e, e.node # e.n /\ e.info \in {"alive", "suspect"})
+  \* every probe ends (its health delta is applied when probeNode returns) within the slowest awareness-scaled
+  \* probe interval: the bound of C03 counts probes at that pace
+  /\ (e.ev = "Health" /\ PassOf(e.n).pickAt >= 0 /\ sim.nodes > 0) =>
+        CReport("C03_ProbeDuration", e, e.t - PassOf(e.n).pickAt <= sim.awMax * sim.probeInterval + sim.maxDelay + 50)
   /\ (e.ev = "Reap") =>
         LET p == PassOf(e.n)
             el == Peers(e) IN
@@ -94,12 +98,14 @@ PassUpdate(e) ==
   CASE e.ev = "SimInit" -> pass' = << >>
     [] e.ev = "Init" -> pass' = put(NoPass)
     [] e.ev = "ProbePick" ->
-         pass' = put([p EXCEPT !.picks = [x \in DOMAIN p.picks \cup {e.node} |-> Count(p.picks, x) + (IF x = e.node THEN 1 ELSE 0)]])
+         pass' = put([p EXCEPT !.picks = [x \in DOMAIN p.picks \cup {e.node} |-> Count(p.picks, x) + (IF x = e.node THEN 1 ELSE 0)],
+                               !.pickAt = e.t])
+    [] e.ev = "Health" /\ p.pickAt >= 0 -> pass' = put([p EXCEPT !.pickAt = -1])
     [] e.ev = "Reap" ->
          LET el == Peers(e) IN
          \* a pass without a probe counts against a peer only if the observer listed it during the WHOLE pass
          \* (a peer that was dead when the cursor came by and alive again afterwards was rightly skipped)
-         pass' = put([picks |-> << >>, stable |-> TRUE, elig |-> el, full |-> TRUE, flap |-> {},
+         pass' = put([picks |-> << >>, stable |-> TRUE, elig |-> el, full |-> TRUE, flap |-> {}, pickAt |-> p.pickAt,
                       missed |-> [x \in el |-> IF p.full /\ x \in p.elig /\ x \notin p.flap /\ Count(p.picks, x) = 0
                                                 THEN Count(p.missed, x) + 1 ELSE 0]])
     [] e.ev = "NodeOp" /\ (IsAbsent(e.pre) # IsAbsent(e.post) \/ Listed(e.pre) # Listed(e.post)) ->
